@@ -27,10 +27,21 @@ N = secp.N
 H = 1 << 31
 
 
+_POOL = {}
+
+
 def _mk_parent(case):
+    """Parent objects are kept in a small pool and REUSED when the same parent recurs (case['reuse']), so that children
+    lists, caches or any other state left by earlier derivations is present when the next one is judged."""
     xk = bridge.xkey_from_case(case)
-    node = bridge.mk_node(xk, case["testnet"], case.get("form", "ctor"))
-    return xk, node
+    if not case.get("reuse"):
+        return xk, bridge.mk_node(xk, case["testnet"], case.get("form", "ctor"))
+    key = (case["k"], case["c"], case["depth"], case["pindex"], case["pfp"], case["testnet"], case.get("form", "ctor"))
+    if key not in _POOL:
+        if len(_POOL) > 200:
+            _POOL.clear()
+        _POOL[key] = bridge.mk_node(xk, case["testnet"], case.get("form", "ctor"))
+    return xk, _POOL[key]
 
 
 def _cls(case, extra=""):
@@ -199,9 +210,33 @@ def run(ctx):
                             "testnet": bool(n & 1), "form": ("ctor", "str")[n % 2], "index": i}
                     judge_ckd_priv(ctx, case)
         # 2. random cases
+        recent = []
         for _ in range(ctx.scale(2600, 380000)):
-            case = gen_parent(rnd)
-            case["index"] = gen.index(rnd)[1]
+            if recent and rnd.random() < 0.35:
+                # same parent OBJECT again: a new index, a repeated index, or the hardened/normal twin of an earlier one
+                case = dict(rnd.choice(recent))
+                r = rnd.random()
+                case["index"] = case["index"] if r < 0.3 else ((case["index"] ^ H) if r < 0.6 else gen.index(rnd)[1])
+            else:
+                case = gen_parent(rnd)
+                case["index"] = gen.index(rnd)[1]
+                # twins: same key with another chain code / same chain code with another key / other network
+                if recent and rnd.random() < 0.25:
+                    tw = dict(rnd.choice(recent))
+                    which = rnd.choice(["c", "k", "net", "depth"])
+                    if which == "c":
+                        tw["c"] = gen.rbytes(rnd, 32)
+                    elif which == "k":
+                        tw["ktag"], tw["k"] = gen.scalar(rnd)
+                    elif which == "net":
+                        tw["testnet"] = not tw["testnet"]
+                    elif tw["depth"] < 254:
+                        tw["depth"] += 1
+                        tw["pfp"] = tw["pfp"] if tw["depth"] > 1 else b"\x01\x02\x03\x04"
+                    case = tw
+            case["reuse"] = True
+            recent.append(case)
+            del recent[:-12]
             judge_ckd_priv(ctx, case)
         # 3. PRF corners
         pstate["stubbed"] = True
